@@ -461,12 +461,21 @@ func (r *run) atomCaught(T *Node, signer neotest.SingleSigner, extra []*transact
 		calleeArgs = []any{calleeHash, calleeMethod, calleeArgs}
 		calleeHash, calleeMethod = outer, "call"
 	}
+	nested := ap.Fault%2 == 1
+	if nested {
+		r.out.Faults["caught_exception/from-inner-catch-block"]++
+	}
 	mkScript := func(h util.Uint160, m string, a []any) []byte {
 		// caller k0: effect before, tryCall(callee), effect after
+		call := []any{"tryCall", []any{h, m, a}}
+		if nested {
+			// the failing callee is called from inside the catch block of an inner try; an outer try of the same frame catches
+			call = []any{"nestTry", []any{k1, "fail", []any{}, h, m, a}}
+		}
 		return callScript(k0, "seq", []any{
 			[]any{"put", []any{key, val}},
 			[]any{"ev", []any{[]byte("before")}},
-			[]any{"tryCall", []any{h, m, a}},
+			call,
 			[]any{"ev", []any{[]byte("after")}},
 			[]any{"put", []any{kKeys[(ap.Pieces[0].X+1)%len(kKeys)], []byte{0x55}}}})
 	}
